@@ -163,11 +163,24 @@ pub struct Evaluated {
 impl<C: crate::runtime::OptCtx> Lowered<'_, C> {
     /// Evaluate the function `pkg.main` with the IR evaluator.
     ///
+    /// See [`Lowered::eval_named`].
+    pub fn eval(
+        &self,
+        args: &[Scalar],
+        return_by_ptr: bool,
+        ret_size: usize,
+    ) -> Evaluated {
+        self.eval_named("main", args, return_by_ptr, ret_size)
+    }
+
+    /// Evaluate the function `pkg.<name>` with the IR evaluator.
+    ///
     /// If the function returns through a pointer, `ret_size` bytes are
     /// allocated for the return value and returned in [`Evaluated::ret_bytes`].
     /// Panics if the evaluator panics.
-    pub fn eval(
+    pub fn eval_named(
         &self,
+        name: &str,
         args: &[Scalar],
         return_by_ptr: bool,
         ret_size: usize,
@@ -199,7 +212,7 @@ impl<C: crate::runtime::OptCtx> Lowered<'_, C> {
                 Scalar::Char(x) => IrValue::Char(x),
             });
         }
-        let res = self.0.eval(&mut mem, ctx, ir_args);
+        let res = self.0.verif_eval_named(name, &mut mem, ctx, ir_args);
         let value = res.and_then(|v| {
             Some(match v {
                 IrValue::Bool(x) => Scalar::Bool(x),
